@@ -56,6 +56,12 @@ CHECKS = {
   text="Round trips over every u16 value (from_u16 domain inside the declared discriminants of both enums read from the tree, as_u16 / KeyCode transmute round trips, the two enums agree value for value), pipeline identity for every valid code (mapped to itself, transparent, process-unmapped-keys; reserved codes never output), every key name denotes the same code as layer action, macro item, fork trigger, switch key, override input, chords-v2 participant, defseq key and defsrc entry, and Cfg.mapped_keys equals the expected set for generated defsrc / deflayermap / process-unmapped-keys combinations.",
   note="Linux tables only; enum bodies and key names are extracted from the tree under test. Placeholder variants declared in OsCode but not produced by from_u16 (KEY_749..766) are allowed and counted. Right-hand modifiers in defseq (F20) are a known finding shared with C12. The Miri run of the transmute round trip (DESIGN.md) is not part of the registered commands."),
 
+ "C12": dict(
+  cat="exploration", ref="DESIGN.md §4 C12, Appendix A.8",
+  technique="generated defseq tables with a reference encoder: differential acceptance check (parser accepts iff the harness's own encodings are prefix-free), table look-ups against the compiled trie, and physically typed sequences through the whole state machine with exactly-once / mode-specific output oracles; proptest shrinking",
+  text="For every generated table the harness encodes all sequences and O- permutations itself and requires the parser's accept/reject decision and the compiled trie's answers (value for every encoding, in-progress for every proper prefix) to agree; for accepted, physically unambiguous tables one sequence is typed (every O- order, either hand's modifier) in five scenarios: full, proper prefix + foreign key, pause of T-1 / T / T+1 before the last key; the virtual key must fire exactly once or not at all accordingly, sequence mode must end, nothing stays down, hidden modes press no typed key, visible-backspaced sends one backspace per typed character.",
+  note="Typing is only judged on tables that are also unambiguous at the level of physical key codes (different encodings can be indistinguishable to the typist, e.g. `(b)` vs `O-(b c)`); sequence-always-on (undocumented) only with the visible mode and the positive scenario. F20 (right-hand modifiers) was repaired with a fix: commit; F35 (O- group followed by more keys with a twin sequence) is a known finding."),
+
  "C13": dict(
   cat="exploration", ref="DESIGN.md §4 C13",
   technique="exhaustive enumeration of all ordered active-key lists (<= 4 of 12 keys) per override table against a reference function (tables compiled by the real parser, real Overrides::override_keys), plus proptest-generated press/release histories through the whole state machine with a quiescent-point invariant",
